@@ -665,6 +665,10 @@ func init() {
 	// memberlist.kRandomNodes(k, nodes, exclude): nondeterministic choice of min(k, #eligible) distinct eligible
 	// nodes (rotation of the eligible list). The real function's random probing may also return fewer; not modelled.
 	reg(mlPkg+".kRandomNodes", func(p *Path, th *thread, caller *frame, pos token.Pos, fn *ssa.Function, args []Value) Value {
+		if p.kRandomReal {
+			// the real function, executed from its SSA (rand.* stubbed as usual)
+			return p.callSSA(th, caller, pos, fn, args, nil)
+		}
 		k := int(p.concretize(termArg(args[0]), "kRandomNodes k"))
 		nodes := args[1].(SliceVal)
 		var elig []Value
